@@ -61,6 +61,9 @@ struct HttpState {
     snapshot: Option<(Uuid, Vec<u8>)>,
     /// fail the n-th request from now: (n, after_effect)
     fail_at: Option<(usize, bool)>,
+    /// the injected failure is a connection closed without any response (a reply that is really
+    /// lost) instead of a 500 response
+    drop_conn: bool,
     count: usize,
 }
 
@@ -108,7 +111,9 @@ fn http_handle(mut stream: TcpStream, state: Arc<Mutex<HttpState>>) {
         if st.count == n {
             st.fail_at = None;
             if !after {
-                http_respond(&mut stream, "500 Internal Server Error", &[], b"injected");
+                if !st.drop_conn {
+                    http_respond(&mut stream, "500 Internal Server Error", &[], b"injected");
+                }
                 return;
             }
             fail_after = true;
@@ -183,8 +188,12 @@ fn http_handle(mut stream: TcpStream, state: Arc<Mutex<HttpState>>) {
         } else {
             ("404 Not Found".into(), vec![], vec![])
         };
+    let drop_conn = st.drop_conn;
     drop(st);
-    if fail_after {
+    if fail_after && drop_conn {
+        // the request was carried out; the connection is closed without a response
+        let _ = stream.shutdown(std::net::Shutdown::Both);
+    } else if fail_after {
         http_respond(&mut stream, "500 Internal Server Error", &[], b"injected after effect");
     } else {
         http_respond(&mut stream, &status, &hdrs, &rbody);
@@ -598,6 +607,7 @@ impl Run {
                 let mut st = state.lock().unwrap();
                 st.count = 0;
                 st.fail_at = Some((at, after));
+                st.drop_conn = s["drop"].as_bool().unwrap_or(false);
             }
             Backend::Local { .. } => {
                 taskchampion::server::verif::set_failpoint(
